@@ -6,6 +6,10 @@
 // client threads blocked) prints the atomic operation that was performed, the value of the atomic
 // variable before and after, the return value if the client operation completed, and the complete
 // shared state.  Input and output format: see ocaml/c08_driver.ml (identical text).
+// Barriers ("|" in a program) end a parallel region; when every thread is idle and waits at a barrier
+// (or has finished) the scheduler thread itself - the master thread, outside the parallel region, no
+// yield points - calls the next NON-THREAD-SAFE pool method of qprog: clear(), clear_after(offset),
+// get_free_elements(size), provided the contract of the method holds, and releases the barriers.
 #include <algorithm>
 #include <atomic>
 #include <chrono>
@@ -46,6 +50,9 @@ struct IPool {
   virtual size_t get_safe() = 0;
   virtual size_t get_unsafe() = 0;
   virtual void free_slot(size_t i) = 0;
+  virtual void q_clear() = 0;
+  virtual void q_clear_after(size_t off) = 0;
+  virtual void q_get_block(size_t n) = 0;
   virtual AtomicValue< size_t > &cursor() = 0;
   virtual AtomicValue< size_t > &taken() = 0;
   virtual AtomicValue< size_t > &maxtaken() = 0;
@@ -58,6 +65,9 @@ template < typename T > struct VecPool : public IPool {
   size_t get_safe() { return v.get_free_element_safe(); }
   size_t get_unsafe() { return v.get_free_element(); }
   void free_slot(size_t i) { v.free_element(i); }
+  void q_clear() { v.clear(); }
+  void q_clear_after(size_t off) { v.clear_after(off); }
+  void q_get_block(size_t n) { v.get_free_elements(n); }
   AtomicValue< size_t > &cursor() { return v._current_index; }
   AtomicValue< size_t > &taken() { return v._number_taken; }
   AtomicValue< size_t > &maxtaken() { return v._max_number_taken; }
@@ -70,6 +80,9 @@ struct MemPool : public IPool {
   size_t get_safe() { return m.get_free_buffer(); }
   size_t get_unsafe() { return m._memory_space.get_free_element(); }
   void free_slot(size_t i) { m.free_buffer(i); }
+  void q_clear() { m._memory_space.clear(); }
+  void q_clear_after(size_t off) { m._memory_space.clear_after(off); }
+  void q_get_block(size_t n) { m._memory_space.get_free_elements(n); }
   AtomicValue< size_t > &cursor() { return m._memory_space._current_index; }
   AtomicValue< size_t > &taken() { return m._memory_space._number_taken; }
   AtomicValue< size_t > &maxtaken() { return m._memory_space._max_number_taken; }
@@ -137,6 +150,7 @@ struct Case {
   std::vector< std::pair< int, std::pair< int, int > > > tasks;
   std::map< int, std::vector< std::string > > progs;
   std::vector< int > sched;
+  std::vector< std::string > qprog;
   long cap;
   Case() : nthr(0), psize(1), nlocks(0), nctr(0), ntasks(0), nq(0), kind(0), cur0(0), cap(0) {}
 };
@@ -171,6 +185,9 @@ static bool peek(int t, Op &op, bool consume) {
   size_t pos = ts.pos;
   while (pos < ts.prog.size()) {
     const std::string &tok = ts.prog[pos];
+    if (tok == "|") {
+      break; // barrier: the thread waits here (tokens dropped on the way stay dropped)
+    }
     ++pos;
     const char k = tok[0];
     long a = 0, b = 0;
@@ -403,6 +420,94 @@ static bool step_thread(int t) {
   return true;
 }
 
+// 0: an operation is available, 1: at a barrier, 2: program finished (idle threads only)
+static int next_state(int t) {
+  Op op;
+  if (peek(t, op, true)) {
+    // peek consumed the operation: undo (the dropped tokens before it stay dropped)
+    --T[t].pos;
+    return 0;
+  }
+  return (T[t].pos < T[t].prog.size() && T[t].prog[T[t].pos] == "|") ? 1 : 2;
+}
+
+static size_t qpos;
+
+// serial section: every thread idle and at a barrier or finished
+static bool maybe_serial() {
+  if (steps >= C->cap) return false;
+  bool at_barrier = false;
+  std::vector< int > st(C->nthr, 2);
+  for (int t = 0; t < C->nthr; ++t) {
+    if (!T[t].idle) return false;
+    st[t] = next_state(t);
+    if (st[t] == 0) return false;
+    if (st[t] == 1) at_barrier = true;
+  }
+  if (!at_barrier && qpos >= C->qprog.size()) return false;
+  if (qpos < C->qprog.size()) {
+    const std::string tok = C->qprog[qpos++];
+    const std::string rest = tok.substr(1);
+    const size_t colon = rest.find(':');
+    const size_t a = rest.size() ? strtoull(rest.substr(0, colon).c_str(), nullptr, 10) : 0;
+    const size_t b = colon != std::string::npos ? strtoull(rest.substr(colon + 1).c_str(), nullptr, 10) : 0;
+    const size_t psize = C->psize;
+    std::string text;
+    bool ok = true;
+    switch (tok[0]) {
+    case 'c':
+      text = "clear";
+      if (ok) {
+        pool->q_clear();
+        for (int t = 0; t < C->nthr; ++t) T[t].held.clear();
+      }
+      break;
+    case 'k':
+      text = "clear_after:" + num(a);
+      ok = a <= psize;
+      for (size_t i = 0; ok && i < a; ++i) ok = pool->flags()[i]._value.load();
+      if (ok) {
+        pool->q_clear_after(a);
+        for (int t = 0; t < C->nthr; ++t) {
+          std::deque< size_t > keep;
+          for (size_t x : T[t].held)
+            if (x < a) keep.push_back(x);
+          T[t].held = keep;
+        }
+      }
+      break;
+    case 'n':
+      text = "get_free_elements:" + num(a) + ":" + num(b);
+      ok = a < (size_t)C->nthr && b <= psize;
+      for (size_t i = 0; ok && i < psize; ++i) ok = !pool->flags()[i]._value.load();
+      if (ok) {
+        pool->q_get_block(b);
+        for (size_t i = 0; i < b; ++i) T[a].held.push_front(i);
+      }
+      break;
+    default:
+      printf("! bad quiescent token %s\n", tok.c_str());
+      fflush(stdout);
+      _exit(2);
+    }
+    std::string h = "H:";
+    for (int t = 0; t < C->nthr; ++t) {
+      if (t) h += ";";
+      bool first = true;
+      for (size_t x : T[t].held) {
+        h += (first ? "" : ",") + num(x);
+        first = false;
+      }
+    }
+    printf("q %s %s %s\n", text.c_str(), ok ? "ok" : "skipped", h.c_str());
+    print_state();
+  }
+  for (int t = 0; t < C->nthr; ++t) {
+    if (st[t] == 1) ++T[t].pos;
+  }
+  return true;
+}
+
 static void run_case(Case &c) {
   C = &c;
   if (c.kind == 1) {
@@ -443,17 +548,21 @@ static void run_case(Case &c) {
   turn = -1;
   aborting = false;
   steps = 0;
+  qpos = 0;
   std::vector< std::thread > threads;
   for (int t = 0; t < c.nthr; ++t) threads.emplace_back(thread_main, t);
 
   printf("case %s\n", c.id.c_str());
   print_state();
   for (int t : c.sched) {
+    while (maybe_serial()) {
+    }
     if (t >= 0 && t < c.nthr && steps < c.cap) step_thread(t);
   }
   bool progress = true;
   while (progress && steps < c.cap) {
     progress = false;
+    if (maybe_serial()) progress = true;
     for (int t = 0; t < c.nthr; ++t) {
       if (steps < c.cap && step_thread(t)) progress = true;
     }
@@ -515,6 +624,9 @@ int main(int argc, char **argv) {
       is >> t;
       std::string tok;
       while (is >> tok) c->progs[t].push_back(tok);
+    } else if (w == "qprog") {
+      std::string tok;
+      while (is >> tok) c->qprog.push_back(tok);
     } else if (w == "sched") {
       int t;
       while (is >> t) c->sched.push_back(t);
